@@ -89,6 +89,7 @@ func checkC13(cx *Ctx, r *Report) {
 	// storage is asked with the request's context (which carries the issuer / tenant in effect): keys, providers and
 	// users are those of this request
 	cx.checkStorageContext(r)
+	cx.checkStorageIsTheApplications(r)
 	// the registered locations are used as published: module code does not edit decoded metadata (shared with C16)
 	cx.checkDecodedMetadataUntouched(r)
 	// request data must not be shared between requests through recycled buffers (R-POOL, see C15)
